@@ -25,6 +25,7 @@ type Cell struct {
 	ID  int
 	// Shared marks cells reachable by several goroutines (C18 model).
 	Parent *Cell
+	Meta   interface{} // engine-side annotation (e.g. the value a JSON document was marshalled from)
 }
 
 type StructV struct{ F []Value }
@@ -272,7 +273,20 @@ func isAggregate(t types.Type) bool {
 
 func (x *Exec) store(c *Cell, v Value) {
 	if x.spec > 0 && c.ID <= x.specMark[len(x.specMark)-1] {
-		panic(specAbort{"store to older memory inside a speculated block"})
+		// guarded store: remember the old value; the if-converter merges or
+		// restores it
+		if _, scalar := v.(*smt.Term); !scalar || c.Sub != nil {
+			if sv, isStruct := v.(*StructV); isStruct && c.Sub != nil && len(c.Sub) == len(sv.F) {
+				for i, sc := range c.Sub {
+					x.store(sc, sv.F[i])
+				}
+				return
+			}
+			panic(specAbort{"non-scalar store to older memory inside a speculated block"})
+		}
+		x.specLog = append(x.specLog, specWrite{c, c.V})
+		c.V = v
+		return
 	}
 	if n := len(x.mergeMark); n > 0 && c.ID <= x.mergeMark[n-1] {
 		panic(mergeAbort{"write to memory older than the merged call"})
@@ -473,6 +487,9 @@ func (x *Exec) equal(t types.Type, a, b Value) *smt.Term {
 			return c.FEq(av, bv)
 		}
 		return c.Eq(av, bv)
+	case rtypeV:
+		bv, ok := b.(rtypeV)
+		return c.BoolC(ok && types.Identical(av.T, bv.T))
 	case NumTok:
 		bv, ok := b.(NumTok)
 		if !ok {
